@@ -315,3 +315,23 @@ def edits_t2(text):
                 raise Unsupported('T2: `.await` not applied directly to a call')
             edits.append((m.start(), m.end(), ''))
     return edits
+
+
+def edits_t10(text):
+    """T10: a closure parameter written as the wildcard `_` gets a name (`_` -> `_vf_w`): the installed Verus rejects
+    patterns in closure parameter position ("only variables are supported here").  Insert-only; `_vf_w` is an unused
+    binding, so the closure computes the same value (the argument is dropped at the end of the call instead of not being
+    bound at all - no observable difference for the error values this occurs with)."""
+    code = code_mask(text)
+    edits = []
+    for m in re.finditer(r'\|([^|\n]*)\|', text):
+        if not code[m.start()]:
+            continue
+        before = text[:m.start()].rstrip()
+        if not before or not (before[-1] in '(,={;[' or before.endswith('=>') or before.endswith('return') or before.endswith('move')):
+            continue
+        params = m.group(1)
+        off = m.start(1)
+        for pm in re.finditer(r'(?:^|,)\s*(_)\s*(?=,|$|:)', params):
+            edits.append((off + pm.end(1), off + pm.end(1), 'vf_w%d' % len(edits)))
+    return edits
